@@ -73,7 +73,7 @@ def gen(rng, ctx):
     if rng.random() < 0.4:
         cd = G.shuffle_nodes(rng, cd)
         order = "shuffled"
-    return {"c": cd, "inputs": flag, "kind": kind, "via": rng.choice(["graph", "api"]), "order": order}
+    return {"c": cd, "inputs": flag, "kind": kind, "via": rng.choice(["graph", "api", "sparse"]), "order": order}
 
 
 def check(case, ctx):
